@@ -344,6 +344,39 @@ func streamSuite(r *Run, prop string) {
 						r.Violate(transport+"/stream/send-after-finish", "after the handler has finished, sends return nil or io.EOF", sprintf("SendMsg after the handler returned: %s", o.res), desc, line)
 					}
 				}
+				// a SendMsg that finds the request buffer empty does not wait for anything (in particular not for a receive the
+				// caller has pending on another goroutine)
+				if transport == "inproc" {
+					closed := -1
+					for _, o := range h.byActorOp("cs", "closesend") {
+						if closed < 0 || o.step < closed {
+							closed = o.step
+						}
+					}
+					for _, o := range h.byActorOp("cs", "send") {
+						if o.doneStep == o.step || (cancelled && h.cancelStep <= o.step) || (closed >= 0 && closed < o.step) || (h.returnStep >= 0 && h.returnStep < o.step) {
+							continue
+						}
+						sent, taken := 0, 0
+						for _, x := range h.byActorOp("cs", "send") {
+							if x.step < o.step && x.res == "ok" && x.doneStep < o.step {
+								sent++
+							} else if x.step < o.step && x.doneStep < 0 {
+								sent = -1000 // an earlier send is still pending: this one queues behind it
+							}
+						}
+						for _, x := range h.byActorOp("h", "recv") {
+							if strings.HasPrefix(x.res, "msg:") && x.doneStep >= 0 && x.doneStep < o.step {
+								taken++
+							}
+						}
+						if sent >= 0 && sent == taken {
+							r.Violate(transport+"/stream/send-blocked-with-empty-buffer", "stream operations complete or block only for the reasons the transport documents: a SendMsg blocks only while the one-message buffer is full",
+								sprintf("SendMsg #%d was issued with the request buffer empty (%d sent, %d taken by the handler), the context live and the handler running, and did not complete", sent+1, sent, taken), desc, line)
+							break
+						}
+					}
+				}
 				// receives drain what was delivered — each message once, in order — and then yield the final status
 				if len(cGot) > len(hAtt) || !isPrefix(cGot, hAtt) {
 					r.Violate(transport+"/stream/receive-does-not-drain", "receives drain what was delivered and then yield the final status", sprintf("client received %s from a handler that sent %s: a message was handed out again, the stream never reaches its end", intsStr(cGot), intsStr(hAtt)), desc, line)
